@@ -159,7 +159,7 @@ func convertTrace(evs []verif.Event, w *hlib.NDJSON, report *Report) int {
 		case "KRdyBegin", "KRdyEnd":
 			put(map[string]interface{}{"ev": e.Ev, "k": I(e, "k"), "n": I(e, "n")})
 		case "KRdyDone":
-			put(map[string]interface{}{"ev": e.Ev, "k": I(e, "k"), "n": I(e, "n"), "now": us(I(e, "now"))})
+			put(map[string]interface{}{"ev": e.Ev, "k": I(e, "k"), "n": I(e, "n"), "now": us(I(e, "now")), "sig": B(e, "sig")})
 		case "KEmpty", "KCls", "KGone":
 			put(map[string]interface{}{"ev": e.Ev, "k": I(e, "k")})
 		case "Send":
